@@ -245,27 +245,30 @@ func smtString(s string) string {
 // ---- values ----
 
 type Val struct {
-	T     string // SMT term
-	S     *Sort
-	Tup   []*Val
-	Ptr   *LPath // lvalue pointer (address value)
-	Prov  *LPath // where a slice value was loaded from
-	Elems []*Val // known elements of a constructed array
-	Clo   *Closure
-	GoT   types.Type
-	Const *string // known Go string constant
+	T      string // SMT term
+	S      *Sort
+	Tup    []*Val
+	Ptr    *LPath     // lvalue pointer (address value)
+	Dyn    types.Type // interface value boxed from a value of this static type (dynamic type known)
+	Prov   *LPath     // where a slice value was loaded from
+	Elems  []*Val     // known elements of a constructed array
+	Clo    *Closure
+	GoT    types.Type
+	Const  *string  // known Go string constant
+	Borrow *Borrow  // []byte that may alias a bufio.Reader's internal buffer (valid until the reader is read again)
+	Lim    *LimInfo // io.LimitReader value: source reader and limit
 }
 
 type LPath struct {
-	LibErr bool // global error value of another package (io.EOF, ...): never nil
-	Kind   string // "field","cell","index","sub","global","opaque","local"
-	Base   *LPath
-	Ref    string
-	Struct string
-	Field  string
-	Idx    string
-	Sort   *Sort // sort of the value stored at this location
-	Var    string
+	LibErr  bool   // global error value of another package (io.EOF, ...): never nil
+	Kind    string // "field","cell","index","sub","global","opaque","local"
+	Base    *LPath
+	Ref     string
+	Struct  string
+	Field   string
+	Idx     string
+	Sort    *Sort // sort of the value stored at this location
+	Var     string
 	ElemsOf *Val // for local arrays: pointer to the Val tracking element list
 }
 
@@ -283,3 +286,11 @@ func (v *Val) String() string {
 	}
 	return v.T
 }
+
+// Borrow describes a byte slice handed out by (*bufio.Reader).ReadLine: it aliases the reader's internal
+// buffer and is only valid until the next read on that reader. Active says whether the value is such a
+// slice at all (it may be, on some paths), Reader/Epoch identify the reader and its read count at hand-out.
+type Borrow struct{ Active, Reader, Epoch string }
+
+// LimInfo: an io.LimitReader wrapping reader Src (a reference term) with limit N.
+type LimInfo struct{ Src, N string }
